@@ -896,6 +896,34 @@ def check_C14(tier):
                 rep.violation("concatenation of split_selfies(%r) is not the input" % raw, {"input": raw})
             if sf.len_selfies(raw) != len(v["toks"]):
                 rep.violation("len_selfies(%r) = %d, %d tokens" % (raw, sf.len_selfies(raw), len(v["toks"])), {"input": raw})
+    # 'x' stands for every character other than '[', ']' and '.': the specification's Split does not look at it.
+    # Each vector is replayed again with the x positions filled from a pool of concrete characters (line ends,
+    # blanks, NUL, quotes, regex / format metacharacters, non-ASCII) - the tokens are substituted alike.
+    pool = ["\n", "\r", "\t", " ", "\x00", "\\", "'", '"', "(", ")", "{", "}", "*", "?", "+", "^", "$", "|", "%", "#", "=",
+            "C", "1", "é", "\u2028", "\u00a0", "②", "\U0001F600", "\x0b", "\x0c", "\x1c", "\x85"]
+    rng_c = random.Random(seed() * 7 + 14)
+    for v in vectors:
+        if "x" not in v["raw"]:
+            continue
+        for _ in range(2 if quick else 4):
+            subs = [rng_c.choice(pool) for _ in range(v["raw"].count("x"))]
+            it = iter(subs)
+            raw = "".join(next(it) if c == "x" else c for c in v["raw"])
+            it = iter(subs)
+            toks = ["".join(next(it) if c == "x" else c for c in t) for t in v["toks"]]
+            rep.traces += 1
+            try:
+                got = list(sf.split_selfies(raw))
+            except ValueError:
+                got = None
+            except Exception as e:
+                rep.violation("split_selfies(%r) raised %s" % (raw, type(e).__name__), {"input": raw})
+                continue
+            if v["wf"]:
+                if got != toks:
+                    rep.violation("split_selfies(%r) = %r, specification %r" % (raw, got, toks), {"input": raw})
+                elif sf.len_selfies(raw) != len(toks) or sf.get_alphabet_from_selfies([raw]) != set(toks) - {"."}:
+                    rep.violation("len_selfies / get_alphabet_from_selfies disagree with the tokens of %r" % raw, {"input": raw})
     for v in wf[:: max(1, len(wf) // 3)][:3]:
         rep.sample({"text": v["raw"], "tokens": v["toks"]})
     # the utilities stay consistent whatever was called before: pad a string through selfies_to_encoding
